@@ -1099,7 +1099,7 @@ func cases(tier string, seed int64) []fw.Case {
 	for i := 0; i < n; i++ {
 		p := params{Stakes: stakeSets[i%len(stakeSets)], NUsers: 4 + i%3, NChains: 1 + i%2, Subs: 1 + i%2, MapUgrain: i%3 != 1,
 			Blocks: blocks, FaultBounds: fb, Tax: i%2 == 0, LateFeeChain: i%4 == 3, Activations: i%5 < 2}
-		if tier == "thorough" && i%8 == 7 {
+		if i%8 == 7 { // the same ERC-20 address on two chains (CREATE2-style deployment): the pool index is shared
 			p.SameERC20, p.NChains = true, 2
 		}
 		cs = append(cs, fw.MkCase(fmt.Sprintf("hist-%03d", i), seed*7919+int64(i), p))
